@@ -151,6 +151,9 @@ class Retrieve:
         #    signature on the prefix. Do we? We already do this in the
         #    servermap update?
         self._verify = verify
+        # the pending checks of the shares' encrypted private keys (see
+        # _activate_enough_servers)
+        self._privkey_checks = []
 
         self._status = RetrieveStatus()
         self._status.set_storage_index(self._storage_index)
@@ -524,8 +527,13 @@ class Retrieve:
             if self._need_privkey and not self._node.is_readonly():
                 d = reader.get_encprivkey()
                 d.addCallback(self._try_to_validate_privkey, reader, reader.server)
-                # XXX: don't just drop the Deferred. We need error-reporting
-                # but not flow-control here.
+                # We need no flow-control here, but a verifier must not
+                # report what it found before these verdicts are in (see
+                # _finish), and a failed read should at least be logged.
+                d.addErrback(lambda f: self.log("error while fetching the "
+                                                "private key: %s" % f,
+                                                level=log.UNUSUAL))
+                self._privkey_checks.append(d)
 
     def _try_to_validate_prefix(self, prefix, reader):
         """
@@ -613,15 +621,30 @@ class Retrieve:
         if self._current_segment > self._last_segment:
             # No more segments to download, we're done.
             self.log("got plaintext, done")
-            return self._done()
+            return self._finish()
         elif self._verify and len(self._active_readers) == 0:
             self.log("no more good shares, no need to keep verifying")
-            return self._done()
+            return self._finish()
         self.log("on segment %d of %d" %
                  (self._current_segment + 1, self._num_segments))
         d = self._process_segment(self._current_segment)
         d.addCallback(lambda ign: self.loop())
         return d
+
+    def _finish(self):
+        """
+        I call _done(). A verifier first waits for the checks of the
+        encrypted private keys that are still under way: the blocks of a
+        small file can all be validated from what the servermap update
+        already fetched, before the first private key has even arrived, and
+        the shares found bad by those checks belong in the result.
+        """
+        if self._verify and self._privkey_checks:
+            checks, self._privkey_checks = self._privkey_checks, []
+            d = defer.DeferredList(checks)
+            d.addCallback(lambda ign: self._done())
+            return d
+        return self._done()
 
     def _process_segment(self, segnum):
         """
